@@ -224,6 +224,12 @@ def parse_directive(block):
         if mm:
             d["lift"] = _unq(mm.group(1))
             continue
+        mm = re.match(r"lift_arg\s+(" + _STR + r")\s*$", s)
+        if mm:
+            # the argument expression of the call whose text ends the anchor (`...name(`) becomes the body of the function
+            # named by `sig:`, wrapped as `{ Ok(<expr>) }` (early `return Err(..)` inside the expression keep their meaning)
+            d["lift_arg"] = _unq(mm.group(1))
+            continue
         mm = re.match(r"lift_wrap:\s*(.*)$", s)
         if mm:
             # the closure body is an expression `Path { fields }` (a struct literal): the lifted function body becomes
@@ -352,6 +358,19 @@ def build_item(d, canary=False, repo=REPO):
     if d["kind"] != "fn":
         out = apply_rewrites(item_text, d, log, where)
         return d["prefix"] + (" " if d["prefix"] else "") + out, meta
+    if d.get("lift_arg"):
+        anchor = d["lift_arg"]
+        n_ = item_text.count(anchor)
+        if n_ != 1:
+            raise AssembleError("lift_arg anchor lost in %s: %r occurs %d times" % (where, anchor, n_))
+        from rustscan import match_delim
+        m_ = code_mask(item_text)
+        ob = item_text.index(anchor) + len(anchor) - 1
+        if m_[ob] != "(":
+            raise AssembleError("lift_arg anchor in %s must end with the call's opening parenthesis" % where)
+        cb = match_delim(m_, ob)
+        log.append({"rule": "N10-lift", "fn": where, "from": anchor, "to": "argument expression lifted into a named function; surrounding text dropped"})
+        item_text = "fn lifted__() { Ok(" + item_text[ob + 1:cb].rstrip().rstrip(",") + ") }"
     if d.get("lift"):
         # N10-lift: the body of the closure that starts at the anchor (anchor text ends with its opening brace) becomes the
         # body of a named function (signature given by `sig:`); everything around the closure is dropped from this item
